@@ -14,7 +14,89 @@ SHAPES = {  # documented shapes, as functions of (FDim, CDim, Dim)
     'boxplus': lambda f, c, d: (f, c), 'point_self': lambda f, c, d: (d, f), 'point_point': lambda f, c, d: (d, d)}
 
 
+def derivative_monitors(run):
+    """Beyond the lattice (L1): the same definition - derivative of the named operation along the boxplus perturbation of the named operand -
+    evaluated numerically (central differences with Richardson extrapolation, accuracy ~1e-9 relative) on GENERIC float operands, in particular in
+    regions no lattice point reaches: headings within 1e-9..1e-6 of a multiple of pi/2, rotations of 1e-9..1e-3 rad, translations up to 1e4,
+    quaternions with w < 0.  A monitor, not the deciding oracle: it can only add alarms for off-lattice regions."""
+    import math
+    import random
+    from graphslam.pose.se2 import PoseSE2
+    from graphslam.pose.se3 import PoseSE3
+    rnd = random.Random(run.seed + 55)
+    n_runs = 1500 if run.tier == 'thorough' else 240
+
+    def heading():
+        r = rnd.random()
+        if r < 0.5:
+            return rnd.choice([0.0, math.pi / 2, -math.pi / 2, math.pi, -math.pi]) + rnd.choice([-1, 1]) * 10 ** rnd.uniform(-9, -6)
+        if r < 0.7:
+            return rnd.choice([-1, 1]) * 10 ** rnd.uniform(-9, -3)
+        return rnd.uniform(-3.1, 3.1)
+
+    def mag():
+        return rnd.choice([-1, 1]) * 10 ** rnd.uniform(-2, 4)
+
+    def rp(kind):
+        if kind == 'SE2':
+            return PoseSE2([mag(), mag()], heading())
+        ax = np.array([rnd.gauss(0, 1) for _ in range(3)])
+        ax /= np.linalg.norm(ax)
+        th = rnd.choice([10 ** rnd.uniform(-9, -3), rnd.uniform(0.01, 3.1), math.pi - 10 ** rnd.uniform(-6, -2)])
+        sgn = rnd.choice([1, -1])
+        return PoseSE3([mag(), mag(), mag()], list(sgn * ax * math.sin(th / 2)) + [sgn * math.cos(th / 2)])
+
+    def num_diff(fn, p, cd, h=2e-4):
+        """d/d(delta) fn(p [+] delta) at 0, columns = tangent directions; Richardson on central differences."""
+        cols = []
+        for j in range(cd):
+            def cdiff(hh):
+                d = np.zeros(cd)
+                d[j] = hh
+                diff = np.asarray(fn(p + d), dtype=float) - np.asarray(fn(p + (-d)), dtype=float)
+                if isinstance(p, PoseSE2) and len(diff) == 3:
+                    diff[2] = (diff[2] + math.pi) % (2 * math.pi) - math.pi       # the heading difference is taken modulo 2 pi
+                return diff / (2 * hh)
+            cols.append((4 * cdiff(h / 2) - cdiff(h)) / 3)
+        return np.array(cols).T
+
+    for n in range(n_runs):
+        kind = 'SE2' if n % 2 == 0 else 'SE3'
+        a, b = rp(kind), rp(kind)
+        cd = B.CDIM[kind]
+        S = 1.0 + float(max(np.max(np.abs(np.asarray(a)[:B.DIM[kind]])), np.max(np.abs(np.asarray(b)[:B.DIM[kind]]))))
+        pt = np.array([mag() for _ in range(B.DIM[kind])])
+        S = max(S, float(np.max(np.abs(pt))))
+        tol = 2e-6 * S
+        checks = [
+            ('jacobian_self_oplus_other_wrt_self', lambda x: x + b, a, a.jacobian_self_oplus_other_wrt_self(b) @ a.jacobian_boxplus()),
+            ('jacobian_self_oplus_other_wrt_other', lambda x: a + x, b, a.jacobian_self_oplus_other_wrt_other(b) @ b.jacobian_boxplus()),
+            ('jacobian_self_ominus_other_wrt_self', lambda x: x - b, a, a.jacobian_self_ominus_other_wrt_self(b) @ a.jacobian_boxplus()),
+            ('jacobian_self_ominus_other_wrt_other', lambda x: a - x, b, a.jacobian_self_ominus_other_wrt_other(b) @ b.jacobian_boxplus()),
+            ('jacobian_self_oplus_point_wrt_self', lambda x: x + pt, a, a.jacobian_self_oplus_point_wrt_self(pt) @ a.jacobian_boxplus()),
+            ('jacobian_inverse', lambda x: x.inverse, a, a.jacobian_inverse() @ a.jacobian_boxplus()),
+            ('jacobian_boxplus', lambda x: x, a, a.jacobian_boxplus()),
+        ]
+        run.count(key=('monitor', n), nontrivial=True)
+        for name, fn, operand, analytic in checks:
+            try:
+                D = num_diff(fn, operand, cd)
+            except Exception as ex:  # noqa
+                run.violation(dict(part='derivative-monitor', k=kind, method=name), 'exception %r' % (ex,), dict(a=np.asarray(a).tolist(), b=np.asarray(b).tolist()))
+                break
+            A = np.asarray(analytic, dtype=float)
+            dv = float(np.max(np.abs(A - D))) if A.shape == D.shape else float('inf')
+            if dv > tol:
+                run.violation(dict(part='derivative-monitor', k=kind, method=name),
+                              '%s chained with jacobian_boxplus deviates from the numerically evaluated derivative by %.3g (> %.3g) for generic operands a=%r b=%r' % (
+                                  name, dv, tol, np.asarray(a).tolist(), np.asarray(b).tolist()), dict(a=np.asarray(a).tolist(), b=np.asarray(b).tolist(), point=pt.tolist()))
+                break
+    run.notes['derivative_monitor_runs_on_generic_floats'] = n_runs
+
+
 def check(run, cases=None):
+    if cases is None:
+        derivative_monitors(run)
     cases = cases if cases is not None else [c for c in PC.gen_cases(run.tier, run.seed + 2) if not c.get('lite')]
     old = EC.headroom_class
     EC.headroom_class = PC.headroom_class
